@@ -128,7 +128,7 @@ Lemma Cl_entry : forall b s g1 G cenv loc cbf selfv SF,
   (forall x kx, In (x, kx) G -> uname0 x /\ exists c c', lookup_scopes x cenv = Some c /\ cbget cbf x = Some c' /\ b c c' kx) ->
   NoDup (map fst G) ->
   cur_ok path prog cbf loc SF b {| locals := [[]]; captured := cenv; cur := selfv |} ->
-  Cl path prog cbf G (frames g1) loc SF b [] {| locals := [[]]; captured := cenv; cur := selfv |} s (push_frame g1 (LFun loc)).
+  Cl path prog allP cbf G (frames g1) loc SF b [] {| locals := [[]]; captured := cenv; cur := selfv |} s (push_frame g1 (LFun loc)).
 Proof.
   intros b s g1 G cenv loc cbf selfv SF Hh Ho Hnd HG HndG Hcur.
   constructor; cbn [locals captured cur push_frame with_frames frames out cells length skipn]; try assumption; try reflexivity.
@@ -149,7 +149,7 @@ Variable CD : kctx.
 Variable base : list frame.
 Variable SF : sfk.
 Hypothesis Hsmall : small (1 + 2 * length code + 8).
-Local Notation ClA := (Cl path prog cb CD base name SF).
+Local Notation ClA := (Cl path prog allP cb CD base name SF).
 
 Lemma params_sim : forall ps pk vs ws k Bk acc b a g env s allws,
   code_at code (2 * k) (pcodeP k ps) -> a_ip a = 2 * k -> a_args a = allws -> a_ops a = [] ->
@@ -198,10 +198,10 @@ Proof.
     set (i2 := mkI OP_STORE [p]) in *.
     set (g1t := trc name a1 g1 i2).
     assert (HC1t : ClA b Bk env s g1t) by (eapply Cl_same; [exact HC|reflexivity|reflexivity|reflexivity]).
-    destruct (frames g1t) as [|f fs] eqn:Ef; [exact (False_ind _ (proj2 (Rfr2_ne _ _ _ (cl_fr _ _ _ _ _ _ _ _ _ _ _ _ HC1t)) Ef))|].
-    destruct (Cl_declare path prog cb CD base name SF b Bk env s g1t p k1 v w acc [] f fs HC1t Hpu Hv El Ef Hpn0 HpB (trace g1t)) as [HC2 He2].
+    destruct (frames g1t) as [|f fs] eqn:Ef; [exact (False_ind _ (proj2 (Rfr2_ne _ _ _ _ (cl_fr _ _ _ _ _ _ _ _ _ _ _ _ _ HC1t)) Ef))|].
+    destruct (Cl_declare path prog allP cb CD base name SF b Bk env s g1t p k1 v w acc [] f fs HC1t Hpu Hv El Ef Hpn0 HpB (trace g1t)) as [HC2 He2].
     cbv zeta in HC2, He2.
-    match type of HC2 with Cl _ _ _ _ _ _ _ _ _ ?E ?S ?G => set (env1 := E) in *; set (s1 := S) in *; set (g2 := G) in * end.
+    match type of HC2 with Cl _ _ _ _ _ _ _ _ _ _ ?E ?S ?G => set (env1 := E) in *; set (s1 := S) in *; set (g2 := G) in * end.
     set (a2 := set_ip (set_ops a1 []) (S (a_ip a1))).
     assert (R2 : xrun prog name code a g a2 g2).
     { eapply xrun_trans; [exact R1|].
@@ -209,8 +209,8 @@ Proof.
       - cbn [a1 set_ip a_ip]. rewrite Hip. exact Hi2.
       - apply (exec_store p a1 g1t w g2); [reflexivity|].
         assert (Hf : find_in_function p (frames g1t) = None).
-        { pose proof (Rfr2_look _ _ _ (cl_fr _ _ _ _ _ _ _ _ _ _ _ _ HC1t) p Hpu) as Hl. rewrite Hpn0 in Hl.
-          destruct (find_in_function p (frames g1t)); [contradiction|reflexivity]. }
+        { pose proof (Rfr2_look _ _ _ _ (cl_fr _ _ _ _ _ _ _ _ _ _ _ _ _ HC1t) p Hpu) as Hl. rewrite Hpn0 in Hl.
+          destruct (find_in_function p (frames g1t)); [exact (False_ind _ (Hl Logic.I))|reflexivity]. }
         unfold store_var. rewrite Hf. unfold bind_local. rewrite Ef. reflexivity. }
     assert (Hb1 : bound2 ((p, k1) :: Bk) env1) by (eapply (bound2_declare Bk env p k1 _ acc [] env1 Hb El); [reflexivity|exact Hpu]).
     assert (Eal : alloc s v = (s1, N.of_nat (length (store s)))) by reflexivity.
@@ -280,7 +280,8 @@ Proof.
   assert (Eenv : env1 = {| locals := [sc]; captured := cenv; cur := Some fv |}) by (rewrite (fenv_eta env1), El1, Ec1, Eu1; reflexivity).
   subst env1.
   (* the body *)
-  pose proof (bspec_all path prog loc fcd cbf G (frames g1) (Some (pk, r)) (S d) Hsm fuel IH body b1 (rev (combine ps pk)) lr false None 0 0 k fuel (2 * length ps)
+  pose proof (bspec_all path prog loc fcd cbf G (frames g1) (Some (pk, r)) (S d) Hsm fuel IH allP (fun _ _ => Logic.I) (fun _ => Logic.I)
+                (ghost_all path prog loc fcd cbf G (frames g1) (Some (pk, r)) (S d) Hsm fuel IH) body b1 (rev (combine ps pk)) lr false None 0 0 k fuel (2 * length ps)
                 a1 gq {| locals := [sc]; captured := cenv; cur := Some fv |} s1 B' rets (le_n _) Hkb Hb1 Hinb) as H.
   fold its in H.
   assert (Hlits : length its = length cb0) by (unfold cb0; rewrite <- (CI_strip its Hits) at 1; apply map_length).
@@ -314,14 +315,14 @@ Proof.
     unfold smid in SM2. destruct SM2 as (R2 & E2 & T2 & A2 & S2 & K2 & L2).
     pose proof (same_tl_length {| locals := [sc]; captured := cenv; cur := Some fv |} env2 ltac:(cbn; discriminate) Hd2) as Hl2.
     cbn [locals length] in Hl2.
-    pose proof (cl_base _ _ _ _ _ _ _ _ _ _ _ _ HC2) as Hbase. rewrite Hl2 in Hbase.
-    destruct (frames g2) as [|f2 fs2] eqn:Ef2; [exfalso; exact (proj2 (Rfr2_ne _ _ _ (cl_fr _ _ _ _ _ _ _ _ _ _ _ _ HC2)) Ef2)|].
+    pose proof (cl_base _ _ _ _ _ _ _ _ _ _ _ _ _ HC2) as Hbase. rewrite Hl2 in Hbase.
+    destruct (frames g2) as [|f2 fs2] eqn:Ef2; [exfalso; exact (proj2 (Rfr2_ne _ _ _ _ (cl_fr _ _ _ _ _ _ _ _ _ _ _ _ _ HC2)) Ef2)|].
     cbn [skipn] in Hbase. subst fs2.
-    pose proof (Rfr2_drop _ _ _ (cl_fr _ _ _ _ _ _ _ _ _ _ _ _ HC2)) as Hdrop. rewrite Hl2, Ef2 in Hdrop. cbn [skipn] in Hdrop.
+    pose proof (Rfr2_drop _ _ _ _ (cl_fr _ _ _ _ _ _ _ _ _ _ _ _ _ HC2)) as Hdrop. rewrite Hl2, Ef2 in Hdrop. cbn [skipn] in Hdrop.
     assert (Hfin : forall gf, frames gf = frames g1 -> out gf = out g2 -> cells gf = cells g2 ->
               bext b b2 s g1 /\ heap_ok b2 s2 gf /\ frames gf = frames g1 /\ out gf = rout s2 /\ keep b g1 gf /\ lens s s2 g1 gf).
-    { intros gf F1 F2 F3. split; [exact (Hbext _ _ _ E2 L2)|]. split; [eapply heap_ok_same; [exact (cl_heap _ _ _ _ _ _ _ _ _ _ _ _ HC2)|reflexivity|exact F3]|].
-      split; [exact F1|]. split; [rewrite F2; exact (cl_out _ _ _ _ _ _ _ _ _ _ _ _ HC2)|].
+    { intros gf F1 F2 F3. split; [exact (Hbext _ _ _ E2 L2)|]. split; [eapply heap_ok_same; [exact (cl_heap _ _ _ _ _ _ _ _ _ _ _ _ _ HC2)|reflexivity|exact F3]|].
+      split; [exact F1|]. split; [rewrite F2; exact (cl_out _ _ _ _ _ _ _ _ _ _ _ _ _ HC2)|].
       split; [intros c' w0 Hc' Hn0; unfold cell_get; rewrite F3; exact (Hkeep _ K2 c' w0 Hc' Hn0)|].
       destruct (Hlens _ _ L2) as [X1 X2]. split; [exact X1|rewrite F3; exact X2]. }
     destruct (tailc_cases cb0) as [Et|Et].
@@ -361,13 +362,13 @@ Proof.
     destruct Hl as (gf & Hl & F1 & F2 & F3).
     destruct (run_fn_finish prog loc fcd ws cbf g1 a2 g2 _ Hcode ltac:(eapply xrun_trans; [exact R1|exact R2]) Hl) as [fuel' Hrun].
     exists fuel', gf, b2, w. split; [exact Hrun|]. split; [exact (Hbext _ _ _ E2 L2)|].
-    split; [eapply heap_ok_same; [exact Hh2|reflexivity|exact F3]|]. split; [rewrite <- (Hrets k1 Hk2); exact Hv2|].
+    split; [eapply heap_ok_same; [exact Hh2|reflexivity|exact F3]|]. split; [destruct (Hrets k1 Hk2) as [<-|[-> ->]]; exact Hv2|].
     split; [exact F1|]. split; [rewrite F2; exact Ho2|].
     split; [intros c' w0 Hc' Hn0; unfold cell_get; rewrite F3; exact (Hkeep _ K2 c' w0 Hc' Hn0)|].
     destruct (Hlens _ _ L2) as [X1 X2]. split; [exact X1|rewrite F3; exact X2].
   - (* return (no value) *)
     destruct H as (a2 & g2 & b2 & R2 & Hi2 & Hops2 & E2 & Hh2 & Hk2 & Ho2 & Hdr2 & K2 & L2).
-    split; [symmetry; exact (Hrets KN Hk2)|].
+    split; [destruct (Hrets KN Hk2) as [<-|[-> _]]; reflexivity|].
     assert (Hl : exists gf, (forall f0 k0, loop rcT (run_fn f0 prog) loc fcd (S (S (S k0))) a2 g2 = RDone None gf) /\
                             frames gf = frames g1 /\ out gf = out g2 /\ cells gf = cells g2).
     { eexists. split; [intros f0 k0|].
@@ -440,7 +441,8 @@ Proof.
   pose proof (Cl_entry path P b0 s0 g0 [] [] name None None None Hh0 eq_refl ltac:(constructor) ltac:(intros x kx []) ltac:(constructor) Logic.I) as HC0.
   fold env0 gP in HC0.
   assert (Hlits : length its = length cbm) by (unfold cbm; rewrite <- (CI_strip its Hits) at 1; apply map_length).
-  pose proof (bspec_all path P name mc None [] [] None 0 Hsm fuel (fun f _ => call_sim_all path P f) p b0 [] 0 false None 0 0 0 fuel 0 a0 gP env0 s0 B' rets
+  pose proof (bspec_all path P name mc None [] [] None 0 Hsm fuel (fun f _ => call_sim_all path P f) allP (fun _ _ => Logic.I) (fun _ => Logic.I)
+                (ghost_all path P name mc None [] [] None 0 Hsm fuel (fun f _ => call_sim_all path P f)) p b0 [] 0 false None 0 0 0 fuel 0 a0 gP env0 s0 B' rets
                 (le_n _) Hk ltac:(split; [intros x _; cbn; split; [congruence|intros []]|intros x []]) Hinst) as H.
   fold its in H. rewrite Hlits in H.
   specialize (H ltac:(apply items_at_strip; [exact Hits|]; exact (code_at_embed [] cbm [ret_mod]))
@@ -457,8 +459,8 @@ Proof.
     + destruct H as (_ & a' & g' & b' & SM & Hip & Hops & HC & _).
       unfold smid in SM. destruct SM as (Hn & _).
       pose proof (same_tl_length env0 env' ltac:(cbn; discriminate) Hd) as Hl. cbn [env0 locals length] in Hl.
-      pose proof (Rfr2_drop _ _ _ (cl_fr _ _ _ _ _ _ _ _ _ _ _ _ HC)) as Hdrop. rewrite Hl in Hdrop.
-      pose proof (cl_base _ _ _ _ _ _ _ _ _ _ _ _ HC) as Hbase. rewrite Hl in Hbase. rewrite Hbase in Hdrop.
+      pose proof (Rfr2_drop _ _ _ _ (cl_fr _ _ _ _ _ _ _ _ _ _ _ _ _ HC)) as Hdrop. rewrite Hl in Hdrop.
+      pose proof (cl_base _ _ _ _ _ _ _ _ _ _ _ _ _ HC) as Hbase. rewrite Hl in Hbase. rewrite Hbase in Hdrop.
       destruct (xrun_loop _ _ _ _ _ _ _ Hn) as (N & n & Hloop).
       set (f0 := Nat.max N (n + 1)).
       assert (Hrun : exists tr'', run_fn (S f0) P name [] None g0 = RDone (Some VModule) {| cells := cells g'; frames := []; out := out g'; trace := tr'' |}).
@@ -473,7 +475,7 @@ Proof.
         rewrite Hops. cbn [add_trace frames with_frames]. rewrite Hdrop. reflexivity. }
       destruct Hrun as (tr'' & Hrun). right.
       exists (S f0). unfold execute. fold P name. rewrite Hrun. cbn [fst snd frames out].
-      split; [exact (cl_out _ _ _ _ _ _ _ _ _ _ _ _ HC)|exact Logic.I].
+      split; [exact (cl_out _ _ _ _ _ _ _ _ _ _ _ _ _ HC)|exact Logic.I].
     + (* a `return` at module level ends the module *)
       destruct H as (a' & g' & b' & w & k & Hn & Hi & Hops & _ & _ & _ & _ & Ho & Hdrop & _).
       destruct (xrun_loop _ _ _ _ _ _ _ Hn) as (N & n & Hloop).
